@@ -127,6 +127,19 @@ def python_state_offenders():
                     for it in iters:
                         if is_set(it):
                             offenders.append(f"{path}:{getattr(n, 'lineno', 0)} iterates over a set (order depends on the per-process hash salt): {ast.unparse(it)[:60]}")
+                # values that differ from one interpreter process to the next: builtin hash() (salted for str/bytes, address-based for objects; `__hash__`/`__eq__` bodies implement
+                # the protocol and are exempt), id(), the process id, wall-clock time, OS entropy, the process-global `random` / `numpy.random` generators
+                if not (isinstance(fnode, ast.FunctionDef) and fnode.name in ("__hash__", "__eq__")):
+                    for n in ast.walk(fnode):
+                        if not isinstance(n, ast.Call):
+                            continue
+                        d = _dotted(n.func) or ""
+                        if d in ("hash", "id"):
+                            offenders.append(f"{path}:{n.lineno} uses builtin {d}() (differs between interpreter processes: per-process hash salt / object addresses): {ast.unparse(n)[:60]}")
+                        elif d in ("os.getpid", "os.urandom", "time.time", "time.time_ns", "time.perf_counter", "time.monotonic", "uuid.uuid1", "uuid.uuid4") or d.startswith(("secrets.", "np.random.", "numpy.random.", "random.")):
+                            if "/callback/logging" in path and d.startswith("time."):
+                                continue
+                            offenders.append(f"{path}:{n.lineno} reads a process-dependent value ({d}): a hidden input")
                 for n in ast.walk(fnode):
                     if isinstance(n, ast.Global):
                         offenders.append(f"{path}:{n.lineno} global {','.join(n.names)}")
@@ -151,6 +164,65 @@ def python_state_offenders():
                     if msg not in offenders:
                         offenders.append(msg)
     return offenders, nfiles, nfuncs
+
+
+def native_process_replay(model):
+    """R1: two fresh interpreters with different string-hash salts (PYTHONHASHSEED=1 / 2 - what separately launched python processes get by default) run reset and one iteration of
+    every algorithm from the same key and print a digest of every array in the resulting state; the digests must agree."""
+    import subprocess
+    import sys
+    prog = r"""
+import hashlib, json, jax, numpy as np
+import equinox as eqx
+from jax import random as jr
+from lerax.algorithm import PPO, A2C, REINFORCE, DQN, SAC
+from lerax.env.classic_control import CartPole, Pendulum
+from lerax.policy import MLPActorCriticPolicy, MLPQPolicy, MLPSACPolicy
+from lerax.callback import EmptyCallback
+def digest(t):
+    h = hashlib.sha256()
+    for l in jax.tree.leaves(eqx.filter(t, eqx.is_array)):
+        if jax.dtypes.issubdtype(l.dtype, jax.dtypes.prng_key):
+            l = jr.key_data(l)
+        h.update(np.asarray(l).tobytes())
+    return h.hexdigest()[:16]
+out = {}
+cp, pd = CartPole(), Pendulum()
+for name, algo, env, pol in (
+    ("PPO", PPO(num_envs=1, num_steps=4, num_batches=1, num_epochs=1), cp, MLPActorCriticPolicy(cp, key=jr.key(0))),
+    ("DQN", DQN(num_envs=1, buffer_size=16, learning_starts=2, batch_size=2, num_steps=2), cp, MLPQPolicy(cp, width_size=4, depth=1, key=jr.key(0))),
+    ("SAC", SAC(num_envs=1, buffer_size=16, learning_starts=2, batch_size=2, num_steps=2, q_width_size=4, q_depth=1), pd, MLPSACPolicy(pd, feature_size=4, width_size=4, depth=1, key=jr.key(0)))):
+    try:
+        cb = None
+        import lerax.callback as C
+        for cand in ("EmptyCallback", "CallbackList"):
+            try:
+                cb = getattr(C, cand)() if cand == "EmptyCallback" else getattr(C, cand)([])
+                break
+            except Exception:
+                cb = None
+        st = algo.reset(env, pol, key=jr.key(1), callback=cb)
+        out[name + ".reset"] = digest(st)
+        st = algo.iteration(st, key=jr.key(2), callback=cb)
+        out[name + ".iteration"] = digest(st)
+    except Exception as e:
+        out[name + ".error"] = type(e).__name__ + ": " + str(e)[:100]
+print("DIGEST " + json.dumps(out, sort_keys=True))
+"""
+    outs = []
+    procs = [subprocess.Popen([sys.executable, "-c", prog], stdout=subprocess.PIPE, stderr=subprocess.PIPE, text=True, env=dict(os.environ, JAX_PLATFORMS="cpu", PYTHONHASHSEED=s)) for s in ("1", "2")]
+    for p in procs:
+        so, se = p.communicate(timeout=900)
+        line = [l for l in so.splitlines() if l.startswith("DIGEST ")]
+        if not line:
+            return dict(reproduced=False, note="fresh interpreter failed: " + se[-300:])
+        outs.append(json.loads(line[-1][7:]))
+    diff = {k_: [outs[0].get(k_), outs[1].get(k_)] for k_ in sorted(set(outs[0]) | set(outs[1])) if outs[0].get(k_) != outs[1].get(k_) and not k_.endswith(".error")}
+    errs = {k_: v for k_, v in outs[0].items() if k_.endswith(".error")}
+    if diff:
+        return dict(reproduced=True, route="R1 (two fresh interpreters, PYTHONHASHSEED=1 vs 2, same key / environment / policy / hyper-parameters)", inputs=dict(PYTHONHASHSEED=["1", "2"]),
+                    observed=dict(state_digests_that_differ=diff))
+    return dict(reproduced=False, note="state digests after reset and one iteration agree across interpreters with different hash salts", errors=errs or None, digests=outs[0])
 
 
 def native_config_replay(model):
@@ -181,9 +253,15 @@ def unit_frame_ast(S):
     S.under_contract(fn)
     offenders, nfiles, nfuncs = python_state_offenders()
     nat = native_config_replay(None) if any("JAX configuration" in o for o in offenders) else None
+    if not (nat and nat.get("reproduced")) and any("interpreter processes" in o or "process-dependent" in o for o in offenders):
+        nat = native_process_replay(None)
     S.fact("frame/no-writes-to-module-level-state", not offenders and nfiles > 50, function=fn,
-           what=f"none of the {nfuncs} functions in {nfiles} lerax source files (render/export excluded) declares `global` or mutates a module-level mutable container: results cannot depend on what was constructed or run earlier in the process",
+           what=f"none of the {nfuncs} functions in {nfiles} lerax source files (render/export excluded) declares `global`, mutates a module-level mutable container or a mutable default, changes the JAX configuration, derives an order from a set, or reads a per-process value (hash()/id() outside __hash__/__eq__, pid, clock, OS entropy, global RNGs): results cannot depend on what was constructed or run earlier in the process, nor on which process runs them",
            detail=offenders[:10], replay=lambda m: (nat if (nat and nat.get("reproduced")) else dict(reproduced=bool(offenders), route="static (AST)", observed=offenders[:10])))
+    if S.tier == "thorough":
+        r = native_process_replay(None)
+        S.bounded_check("process/state-digests-agree-across-hash-salts", not r.get("reproduced") and not r.get("errors") and "digests" in r, bound="PPO, DQN, SAC: reset + one iteration, two fresh interpreters with PYTHONHASHSEED=1 / 2",
+                        function=fn, what="the state after reset and one iteration is bit-identical in two interpreter processes with different string-hash salts", detail=r, replay=lambda m: r)
     l = AbstractAlgorithm.learn
     S.fact("learn/no-buffer-donation", getattr(l, "donate_first", None) is False and getattr(l, "donate_rest", None) is False, function="lerax.algorithm.base_algorithm:AbstractAlgorithm.learn",
            what="learn is jitted without donating its arguments: the policy (and environment) passed in are left untouched")
